@@ -15,7 +15,7 @@ mod verif_cex {
             "VERIF-CEX {}",
             json!({"unit": unit, "what": what, "input": input, "expected": expected, "observed": observed})
         );
-        panic!("VERIF-CEX {unit}: {what}");
+        panic!("counterexample for unit {unit}: {what}");
     }
 
     fn cex_none(unit: &str, cases: u64, bound: &str) {
